@@ -1,7 +1,7 @@
 #!/bin/bash
 # usage: tools/run_all.sh [quick|thorough] [ids...]   runs the registered checks one after another
 tier=${1:-quick}; shift
-ids=${@:-C01 C02 C03 C04 C05 C08 C10 C11 C12 C13 C14 C15 C16 C17 C18 C20}
+ids=${@:-C01 C02 C03 C04 C05 C06 C08 C10 C11 C12 C13 C14 C15 C16 C17 C18 C20}
 cd "$(dirname "$0")/.."
 rc=0
 for id in $ids; do
